@@ -35,6 +35,7 @@ type histResult struct {
 	PFProbes int            `json:"pf_probes"`
 	Calls    int            `json:"calls"`
 	Engines  int            `json:"engines"`
+	Inconcl  []string       `json:"inconcl,omitempty"`
 	Sample   []string       `json:"sample,omitempty"`
 	History  []*op          `json:"history,omitempty"`
 }
@@ -109,6 +110,9 @@ func run(c *core.Ctx) int {
 				continue
 			}
 			evals++
+			for _, k := range hr.Inconcl {
+				c.Inconclusive(k)
+			}
 			c.Count("histories_"+flavour, 1)
 			c.Count("calls", int64(hr.Calls))
 			c.Count("state_probes", int64(hr.Probes))
@@ -151,7 +155,7 @@ func run(c *core.Ctx) int {
 	handle(cases, res, "plain")
 	handle(raceCases, raceRes, "race")
 	// every failure family must have been injected, at depth 0 and nested
-	for _, fam := range []string{"trap", "stack-overflow", "guest-calls-host-panic", "host-panic", "exit", "host-exit", "host-panic-after-reentry"} {
+	for _, fam := range []string{"trap", "stack-overflow", "guest-calls-host-panic", "host-panic", "exit", "host-exit", "host-panic-after-reentry", "shared-atomic-oob", "shared-atomic-unaligned"} {
 		if c.Counter("failures_"+fam) == 0 {
 			c.Inconclusive("failure-family-never-injected:" + fam)
 		}
@@ -173,6 +177,11 @@ func run(c *core.Ctx) int {
 			c.Inconclusive("trap-kind-never-injected:" + tk.Name)
 		}
 	}
+	for _, ak := range sharedAtomicKinds {
+		if kindCounts["shared-"+ak.name()] == 0 {
+			c.Inconclusive("shared-memory-atomic-kind-never-injected:" + ak.name())
+		}
+	}
 	for _, hp := range hostPanics {
 		if kindCounts["host-panic:"+hp.Name] == 0 || kindCounts["guest-calls-host-panic:"+hp.Name] == 0 {
 			c.Inconclusive("host-panic-kind-never-injected:" + hp.Name)
@@ -181,9 +190,10 @@ func run(c *core.Ctx) int {
 	c.Assume("after an exit (proc_exit or CloseWithExitCode+panic) the instance is expected closed: only 'calls return *sys.ExitError with the same code' is demanded of it; a host panic(sys.NewExitError) without Close leaves it open")
 	c.Assume("nothing is injected into frames of an instance after it exited, and no call is made into a closed instance through an import")
 	c.Assume("WASI proc_exit cannot be instrumented: which module it acted on is judged by the closed-ness probes of every instance")
+	c.Assume("a probe that does not return within 2x20s is a hang only if the same probe on a fresh runtime of the same engine returned within 20s (control); otherwise inconclusive; an operation that does not return within 100s is inconclusive")
 	c.Assume("stack overflow is recognised as errors.Is(err, ErrRuntimeStackOverflow) (the compiler returns it without the 'wasm error:' prefix)")
 	return c.Finish(evals, int64(c.DistinctN("kind_depth_position")),
-		"PRNG histories (5-40 operations over 1-3 instances, B<-A linked by a function import, C independent) run on interpreter and compiler against a Go model; every operation's outcome (result or error class), every error observed by re-entrant host functions at nesting depth 1-6, the api.Module handed to every host function (by name and memory marker, for direct and call_indirect calls from own and from imported functions), and the state of every instance after every failing operation are compared with the model, and the two engines' transcripts with each other; evaluations = histories decided; distinct = distinct (failure kind, nesting depth, position in history) triples injected")
+		"PRNG histories (5-40 operations over 1-3 instances, B<-A linked by a function import, C independent) run on interpreter and compiler against a Go model; every operation's outcome (result or error class), every error observed by re-entrant host functions at nesting depth 1-6, the api.Module handed to every host function (by name and memory marker, for direct and call_indirect calls from own and from imported functions), and the state of every instance after every failing operation (counter, memory, table, closed?, host view, and a value-neutral run of every atomic instruction on the instance's memory and on a shared memory from the same api.Function, a fresh one and the other instance sharing it) are compared with the model, and the two engines' transcripts with each other; evaluations = histories decided; distinct = distinct (failure kind, nesting depth, position in history) triples injected")
 }
 
 func kindDepthTable(c *core.Ctx) map[string]int64 {
@@ -255,6 +265,7 @@ func runCase(hc histCase, verbose bool) *histResult {
 		r := runHistory(e, ops, func(i int) bool { return sel[i] }, !verbose)
 		runs = append(runs, r)
 		hr.Findings = append(hr.Findings, r.findings...)
+		hr.Inconcl = append(hr.Inconcl, r.inconcl...)
 		hr.Probes += r.probes
 		hr.PFProbes += r.pfProbes
 		hr.Engines++
